@@ -233,8 +233,34 @@ def earlier_run_over_another_tree_does_not_matter(b_first: bool) -> bool:
     return _includes(fa) == ["vt/A_1_0.h", "vt/sub/C_1_0.h"] and _includes(fb) == ["vt/A_1_0.h", "vt/sub/D_1_0.h"] and fa == _BASE[list(out)[0]]
 
 
+# ------------------------------------------------------------------------------------------------ text filters keep no memory
+import nunavut.lang.cpp as _cpp  # noqa: E402
+
+_LCPP = LanguageContextBuilder(include_experimental_languages=True).set_target_language("cpp").create().get_target_language()
+_STYLES = ["cpp-doxygen", "cpp", "javadoc", "c", "qt"]           # the built-in comment styles ('cpp' has an empty first line)
+_TEXTS = ["one", "several words that will be wrapped at the given width, twice\n\nand a second paragraph", ""]
+
+
+def block_comment_keeps_no_memory(style_i: int, indent_i: int, text_i: int) -> bool:
+    """
+    pre: 0 <= style_i < len(_STYLES) and 0 <= indent_i <= 1 and 0 <= text_i < len(_TEXTS)
+    post: _
+    """
+    # a documentation comment is a function of its text, style, indent and width: rendering the same comment again, with another comment
+    # (same width and indent: the helpers cache per such key) rendered in between, gives the same text
+    f = _cpp.filter_block_comment
+    style, indent, text = _STYLES[style_i], (0, 4)[indent_i], _TEXTS[text_i]
+    r1 = f(_LCPP, text, style, indent, 30)
+    f(_LCPP, _TEXTS[(text_i + 1) % len(_TEXTS)], _STYLES[(style_i + 1) % len(_STYLES)], indent, 30)
+    r2 = f(_LCPP, text, style, indent, 30)
+    f(_LCPP, _TEXTS[(text_i + 2) % len(_TEXTS)], style, indent, 30)
+    r3 = f(_LCPP, text, style, indent, 30)
+    return r1 == r2 == r3
+
+
 # executed natively as well (CrossHair runs functools.lru_cache uncached: cache state is invisible to it)
 NATIVE_SMOKE = {
+    "block_comment_keeps_no_memory": [(s, i, t) for s in range(5) for i in range(2) for t in range(3)],
     "earlier_run_over_another_tree_does_not_matter": [(True,), (False,)],
     "earlier_run_with_other_options_does_not_matter": [(False, False), (False, True), (True, False), (True, True)],
     "subset_and_order_do_not_matter": [(7, 0, False), (7, 1, True), (2, 0, False), (5, 1, False)],
